@@ -60,8 +60,9 @@ where
         }
         Err(e) => {
             let (fatal, f) = classify(&e);
-            crate::a01!(!have && f == Some(Fault::Underflow { req: 1, present: 0 }), "C01 print: error although the operand exists / wrong error");
+            // (error class first: in the C03 build the C01 conditions below are assumptions and would cut this path)
             crate::a03!(!fatal, "C03 a missing print operand must be recoverable");
+            crate::a01!(!have && f == Some(Fault::Underflow { req: 1, present: 0 }), "C01 print: error although the operand exists / wrong error");
             let mut s = e.into_state();
             let d = diff(&mut s, &pre);
             crate::a02!(d == 0, "C02 state (stacks, limits or output) changed by a failed print instruction");
